@@ -37,6 +37,18 @@ LocalsOK(c) == \A f \in DOMAIN c.locals :
   /\ Len(L.args) = c.inm.funcs[f].nparams
   /\ \A a, b \in DOMAIN L.ids : L.ids[a] = L.ids[b] => a = b
 
+\* which function is where: the entities a function's body names, carried through the map, are the entities the
+\* function at the mapped position names (two functions of one type are told apart by what they refer to)
+RefSet(fn) == {<<fn.refs[q][1], fn.refs[q][2]>> : q \in DOMAIN fn.refs}
+LiveRefSet(fn) == {<<fn.live_refs[q][1], fn.live_refs[q][2]>> : q \in DOMAIN fn.live_refs}
+Through(map, rs) == {<<r[1], map[r[1]][r[2] + 1]>> : r \in rs}
+ParseBodiesOK(c) == \A i \in DOMAIN c.inm.funcs :
+  LET id == c.i2id["func"][i] IN
+  c.inm.funcs[i].imported \/ id < 0 \/ Through(c.i2id, LiveRefSet(c.inm.funcs[i])) = RefSet(c.st1.funcs[id + 1])
+EmitBodiesOK(c) == \A id \in 0..(Len(c.st2.funcs) - 1) :
+  LET j == c.id2idx["func"][id + 1] IN
+  c.st2.funcs[id + 1].sig = "dead" \/ c.st2.funcs[id + 1].imported \/ j < 0 \/ Through(c.id2idx, RefSet(c.st2.funcs[id + 1])) = RefSet(c.outm.funcs[j + 1])
+
 Verdict(c) ==
   IF c.outcome # "ok" THEN <<"outcome", c.outcome>>
   ELSE LET p == IsoVerdict(c.inm, c.st1, c.i2id) IN
@@ -44,9 +56,11 @@ Verdict(c) ==
   ELSE IF ~AllKept(c.inm, c.i2id) THEN <<"parse-map", "index-without-id">>
   ELSE IF ~TypesParseOK(c) THEN <<"parse-map", "type">>
   ELSE IF ~LocalsOK(c) THEN <<"parse-map", "locals">>
+  ELSE IF ~ParseBodiesOK(c) THEN <<"parse-map", "function-body-elsewhere">>
   ELSE LET e == IsoVerdict(c.st2, c.outm, c.id2idx) IN
   IF e[1] # "ok" THEN <<"emit-map">> \o e
   ELSE IF ~TypesEmitOK(c) THEN <<"emit-map", "type">>
+  ELSE IF ~EmitBodiesOK(c) THEN <<"emit-map", "function-body-elsewhere">>
   ELSE <<"ok">>
 
 Judge(c) == LET v == Verdict(c) IN
